@@ -360,6 +360,18 @@ func newLemmas(w *World, r *Recorder) *lemmas { return &lemmas{w: w, r: r, notes
 func (l *lemmas) discharge(s *Site) (string, bool) {
 	w := l.w
 	switch s.Kind {
+	case "assert":
+		// the nil check of a method value taken from a shared codec mode
+		if ta, ok := s.Instr.(*ssa.TypeAssert); ok && types.Identical(ta.X.Type(), ta.AssertedType) {
+			if ld, ok := ta.X.(*ssa.UnOp); ok {
+				if g, ok := ld.X.(*ssa.Global); ok {
+					t := g.Type().(*types.Pointer).Elem().String()
+					if (t == pCBOR+".EncMode" || t == pCBOR+".DecMode") && l.modes() {
+						return "shared codec mode " + g.Name() + " is non-nil: written only by the initialiser from (mode, err) and the package init panics when err != nil", true
+					}
+				}
+			}
+		}
 	case "invoke":
 		// invoke on a shared codec mode
 		if c, ok := s.Instr.(ssa.CallInstruction); ok {
